@@ -16,6 +16,7 @@ def main():
     run_translator("t4", [os.path.join(REPO, "main", "bebopc-go", "main.go"), os.path.join(REPO, "main", "bebopfmt", "main.go")], "gen/CliSteps.v", "T4(main/*/main.go)")
     run_translator("t2", [os.path.join(REPO, "primitive.go"), os.path.join(REPO, "gen_templates.go")], "gen/Tables.v", "T2(primitive.go, gen_templates.go)")
     run_translator("t5", [os.path.join(REPO, "gen.go")], "gen/GenAppends.v", "T5(gen.go: File.Generate)")
+    run_translator("t6", [os.path.join(REPO, "token.go"), os.path.join(REPO, "tokenize.go")], "gen/TokTable.v", "T6(token.go, tokenize.go)")
     coq_makefile()
     rc, so, se = sh(["make", "-j16"], cwd=COQ, timeout=3000)
     open(os.path.join(LOGS, "setup-coq.log"), "w").write(so + se)
